@@ -11,6 +11,8 @@ import Mathlib.Data.List.Sort
 import Mathlib.Data.List.Perm.Subperm
 import PV.Proofs.C12Lemmas
 import PV.Proofs.C01bLemmas
+import PV.Proofs.C12bLemmas
+import Mathlib.Tactic.NormNum
 
 namespace PV
 open Scalar
@@ -95,5 +97,98 @@ theorem c12_member_sublist_of_merged (idls : List (List Int)) (idl : List Int) (
     exact List.mem_flatMap.mpr ⟨idl, hmem, hx⟩
   have hnd : idl.Nodup := hinc.imp (fun h => ne_of_lt h)
   exact List.sublist_of_subperm_of_pairwise (hnd.subperm hsub) hinc hm
+
+/-! ### the pobs format (PV/Model/Pobs.lean) -/
+
+section pobs
+open PV.Pobs
+
+/-- **C12 (pobs, reading the table).**  For every configuration list and every set of sample columns of
+    that length, the strided reads `tmp[0 :: na+1]` and `tmp[1+a :: na+1]` of `_import_array` applied to the
+    flattened block return the configuration numbers and column `a` - no sample moves to another
+    configuration or to another observable, whatever `na` and the number of configurations. -/
+theorem c12_pobs_columns (idl : List Int) (cols : List (List α)) :
+    stride (cols.length + 1) 0 (rowsOf idl cols).flatten = idl.map Tok.cfg ∧
+    ∀ a col, cols[a]? = some col → col.length = idl.length →
+      stride (cols.length + 1) (1 + a) (rowsOf idl cols).flatten = col.map Tok.num :=
+  stride_rows idl cols
+
+/-- **C12 (pobs round trip), all inputs.**  For every non-empty list of observables on one ensemble that
+    `create_pobs_string` accepts (the same chains on the same configuration lists throughout), whose
+    fluctuations have zero mean on every chain, whose chains have at least five configurations and whose
+    central value is the weighted mean of the replica means, reading the written blocks returns exactly the
+    original list: values, chain names, configuration lists in their original representation, every
+    fluctuation, every replica mean, flag.  `fix` is the treatment of the separator on import
+    (`c12_pobs_separator`). -/
+theorem c12_pobs_roundtrip (fix : String → String) (o0 : Obs ℝ) (rest : List (Obs ℝ)) (H : PWritable fix o0 rest) :
+    (Pobs.write (o0 :: rest)).bind (readWith fix) = .ok (o0 :: rest) :=
+  pobs_roundtrip fix o0 rest H
+
+/-- non-vacuity: a two-replica observable (one range, one irregular configuration list) meets every hypothesis
+    of `c12_pobs_roundtrip` with `separator_insertion = 1` -/
+noncomputable def pobsExample : Obs ℝ :=
+  { value := 2,
+    reps := [{ name := "A|r1", idl := .range 1 5 1, deltas := [1, -1, 2, -2, 0], rvalue := 1 },
+             { name := "A|r2", idl := .list [1, 2, 4, 7, 8], deltas := [3, -3, 1, -1, 0], rvalue := 3 }],
+    covs := [] }
+
+example : PWritable (fixOf (some 1)) pobsExample [] := by
+  refine ⟨?_, by simp, ?_⟩
+  · intro o ho
+    simp only [List.mem_singleton] at ho
+    subst ho
+    refine ⟨by decide, by decide, rfl, ?_, ?_, rfl, ?_⟩
+    · intro r hr
+      simp only [pobsExample, List.mem_cons, List.not_mem_nil, or_false] at hr
+      rcases hr with rfl | rfl <;> norm_num
+    · intro r hr
+      simp only [pobsExample, List.mem_cons, List.not_mem_nil, or_false] at hr
+      rcases hr with rfl | rfl <;> decide
+    · simp [pobsExample, Idl.len, Idl.toList, RealS.sum_eq, RealS.ofNatS_eq]
+      norm_num
+  · intro r hr
+    simp only [pobsExample, List.mem_cons, List.not_mem_nil, or_false] at hr
+    rcases hr with rfl | rfl <;> decide
+
+/-- **C12 (pobs, separator).**  A chain `e|r` without further separators is restored by
+    `separator_insertion = len(e)`; a chain without separator by `separator_insertion = None`. -/
+theorem c12_pobs_separator (e r : List Char) (he : '|' ∉ e) (hr : '|' ∉ r) :
+    fixOf (some e.length) (stripBar (String.ofList (e ++ '|' :: r))) = String.ofList (e ++ '|' :: r) ∧
+    fixOf none (stripBar (String.ofList e)) = String.ofList e :=
+  ⟨fix_restores e r he hr, fix_none e he⟩
+
+/-- **C12 (pobs, refusal; fix 776c1b2).**  Whatever list the writer accepts has the chains and the
+    configuration lists of its first observable throughout: observables on different configuration lists
+    are refused instead of being written under the first observable's configuration numbers. -/
+theorem c12_pobs_refuses_different_lists (o0 : Obs α) (rest : List (Obs α)) (bs : List (Block α))
+    (h : Pobs.write (o0 :: rest) = .ok bs) :
+    ∀ o ∈ o0 :: rest, o.reps.map (fun r => (r.name, r.idl.toList)) = o0.reps.map (fun r => (r.name, r.idl.toList)) :=
+  write_ok_same o0 rest bs h
+
+/-- **C12 (pobs, the central value; the known finding in general).**  The file holds no central value: every
+    observable `read_pobs` returns has the weighted mean of its replica means as central value.  For an
+    observable whose central value is something else (a non-linear function of an observable on two or more
+    replicas) the round trip therefore cannot hold - the hypothesis `primary` of `c12_pobs_roundtrip` is
+    necessary. -/
+theorem c12_pobs_value_is_weighted_mean (fix : String → String) (bs : List (Block α)) (got : List (Obs α))
+    (h : readWith fix bs = .ok got) :
+    ∀ o ∈ got, o.value = Scalar.sum (o.reps.map (fun r => Scalar.ofNatS r.idl.len * r.rvalue))
+      / Scalar.ofNatS ((o.reps.map (·.idl.len)).foldr (· + ·) 0) :=
+  read_value fix bs got h
+
+/-- witness in exact arithmetic: two replicas of five configurations with replica means 1 and 3 and central
+    value 5 (as for a derived observable); everything but the central value comes back, the value is 2 -/
+def pobsWitness : Obs Rat :=
+  { value := 5,
+    reps := [{ name := "A|r1", idl := .range 1 5 1, deltas := [1, -1, 2, -2, 0], rvalue := 1 },
+             { name := "A|r2", idl := .range 1 5 1, deltas := [3, -3, 1, -1, 0], rvalue := 3 }],
+    covs := [] }
+
+theorem c12_pobs_derived_value_lost :
+    (((Pobs.write [pobsWitness]).bind (Pobs.read (some 1))).toOption.map (fun l => l.map (fun o => (o.value, o.reps.map (fun r => (r.name, r.idl.toList, r.idl.isRange, r.deltas, r.rvalue)))))
+      == some [(2, pobsWitness.reps.map (fun r => (r.name, r.idl.toList, r.idl.isRange, r.deltas, r.rvalue)))]) = true := by
+  decide +kernel
+
+end pobs
 
 end PV
